@@ -147,6 +147,11 @@ def _to_symbolic_repr(model: Model) -> SymbolicRepr:
     return sym
 
 
+_RESERVED_NAMES = frozenset(
+    {"Model", "Derived", "InitialAssignment", "create_model", "math", "scipy"}
+)
+
+
 def _register_fn(
     functions: dict[str, tuple[sympy.Expr, list[str]]],
     fn_name: str,
@@ -160,13 +165,27 @@ def _register_fn(
     up to the names of the arguments, every other use gets a name of its own. An
     argument which is passed more than once needs distinct parameter names.
     """
+    # Names the generated module uses itself
+    if fn_name in _RESERVED_NAMES:
+        fn_name = f"{fn_name}_"
+
     params: list[str] = []
     for arg in args:
         param, n = arg, 0
-        while param in params:
+        while param in params or param in _RESERVED_NAMES:
             n += 1
             param = f"{arg}_{n}"
         params.append(param)
+    expr = cast(
+        sympy.Expr,
+        expr.xreplace(
+            {
+                sympy.Symbol(arg): sympy.Symbol(param)
+                for arg, param in zip(args, params, strict=True)
+                if arg != param and args.count(arg) == 1
+            }
+        ),
+    )
 
     def positional(expr: sympy.Expr, params: list[str]) -> sympy.Basic:
         return expr.xreplace(
